@@ -16,7 +16,7 @@ import (
 func init() {
 	register(&Property{
 		ID:        "C15",
-		Explain:   "Obligations at every construct that can panic, hang or allocate on peer input, in every function reachable (CHA call graph) from the decoding entry points. (1) Bounds: the Go compiler's own prove pass is asked (go build -gcflags=-d=ssa/check_bce/debug=1: compiles, never runs) which index/slice expressions it cannot prove; every such site in a reachable function must be in the reviewed table, keyed by function + expression text with the guard that makes it safe, or be decided by one of the byte-exact folds (header decoders, close body, handlers, Cipher, tail buffer); a new unproven expression is reported. (2) Explicit panics: each panic instruction in a reachable function is either proven dead by a fold (the 'unknown headers state' arms, the accept-buffer size checks) or listed with the reason it cannot be reached from peer input. (3) The announced length never sizes an allocation without a bound: folds of the handlers, ReadFrame and ReadMessage record every allocation whose size depends on Header.Length. (4) MaxFrameSize gate before payload access (fold shared with C05). (5) Progress: every loop in a reachable function is a range/counted loop with a monotone induction variable tested by the loop condition, or consumes input and exits on its error, or is in the reviewed table with its variant. (6) Results of bytes/strings.Index* are compared with -1 before they are used as bounds; type assertions on peer-influenced values use the comma-ok form. Thorough tier, GOARCH=386: conversions of the 63-bit announced length to a 32-bit int. NOT decided: memory and time inside compress/flate and httphead; growth of ReadAll-style helpers (bounded by bytes actually received). The handshake decision tables (they guard the size assertions of the accept computation), the flate Reader.Reset rule (a ByteReader view on a source that has none panics) and the handler folds are part of this check. head-end-index (C11) is part of this check. A bounds site that no table entry and no fold of a caller decides is given a total fold of its own function over unconstrained arguments (any integer, any slice length and content, opaque callees); it is accepted only if in range on every path and no path was aborted. error-guarded-results: a pointer returned together with an error by a call outside the module is dereferenced only on the err == nil side of a test of that error. prefetch-length-measured: the body length DebugDialer.Dial slices with is a count io.Copy returned. Module functions that return -1 for 'not found' (headEndIndex) are treated like bytes.Index: no arithmetic or bound before the -1 test. The debugging wrappers belong to the functions that see peer input. The dialer decision table runs here too: a response line without a colon must not reach the deferred clean-up with a nil reader.",
+		Explain:   "Obligations at every construct that can panic, hang or allocate on peer input, in every function reachable (CHA call graph) from the decoding entry points. (1) Bounds: the Go compiler's own prove pass is asked (go build -gcflags=-d=ssa/check_bce/debug=1: compiles, never runs) which index/slice expressions it cannot prove; every such site in a reachable function must be in the reviewed table, keyed by function + expression text with the guard that makes it safe, or be decided by one of the byte-exact folds (header decoders, close body, handlers, Cipher, tail buffer); a new unproven expression is reported. (2) Explicit panics: each panic instruction in a reachable function is either proven dead by a fold (the 'unknown headers state' arms, the accept-buffer size checks) or listed with the reason it cannot be reached from peer input. (3) The announced length never sizes an allocation without a bound: folds of the handlers, ReadFrame and ReadMessage record every allocation whose size depends on Header.Length. (4) MaxFrameSize gate before payload access (fold shared with C05). (5) Progress: every loop in a reachable function is a range/counted loop with a monotone induction variable tested by the loop condition, or consumes input and exits on its error, or is in the reviewed table with its variant. (6) Results of bytes/strings.Index* are compared with -1 before they are used as bounds; type assertions on peer-influenced values use the comma-ok form. Thorough tier, GOARCH=386: conversions of the 63-bit announced length to a 32-bit int. NOT decided: memory and time inside compress/flate and httphead; growth of ReadAll-style helpers (bounded by bytes actually received). The handshake decision tables (they guard the size assertions of the accept computation), the flate Reader.Reset rule (a ByteReader view on a source that has none panics) and the handler folds are part of this check. head-end-index (C11) is part of this check. A bounds site that no table entry and no fold of a caller decides is given a total fold of its own function over unconstrained arguments (any integer, any slice length and content, opaque callees); it is accepted only if in range on every path and no path was aborted. error-guarded-results: a pointer returned together with an error by a call outside the module is dereferenced only on the err == nil side of a test of that error. prefetch-length-measured: the body length DebugDialer.Dial slices with is a count io.Copy returned. Module functions that return -1 for 'not found' (headEndIndex) are treated like bytes.Index: no arithmetic or bound before the -1 test. The debugging wrappers belong to the functions that see peer input. The dialer decision table runs here too: a response line without a colon must not reach the deferred clean-up with a nil reader. reader-discard runs here: Discard's loop ends on every script (a dropped NextFrame error makes it spin on a stream that has ended).",
 		Technique: "static analysis: compiler bounds-check-elimination report + reviewed-site table, call-graph reachability, loop classification on go/ssa, abstract-interpretation folds for allocation sizes",
 		Trusted:   []string{"the Go compiler's prove pass (sound for the checks it removes)", "go/ssa + go/types + CHA call graph", "the checker's abstract evaluator"},
 		Run:       runC15,
